@@ -857,7 +857,7 @@ fn main() {
 
     ctx.set_rule(
         "every zone = apex + <=K owners of U(d) (labels {a,b,*}) x node kinds {A,TXT,A+TXT,MX,CNAME->{a.z.,b.z.,a.a.z.,x.o.},NS,NS+glue,NS+DS} \
-         (quick d=2,K=2; thorough d=2,K=3 and d=3,K=2) plus CNAME chains 1..9 / loops 1..3, x every query name of {apex, U(3), x.o., names below cuts} \
+         (quick d=2,K<=2; thorough adds d=2,K=3 over 8 kinds [unsigned+NSEC] and d=3,K<=2 [unsigned+NSEC+NSEC3]) plus CNAME chains 1..9 / loops 1..3, x every query name of {apex, U(3), x.o., names below cuts} \
          x qtypes {A,AAAA,MX,NS,CNAME,SOA,DS,TXT,ANY}, each as a wire query through the real Catalog against the unsigned (DO=0), NSEC-signed and \
          NSEC3-signed (DO=1) zone; oracle = vref::zone (RFC 1034 4.3.2 + RFC 4592) on rcode, answer RR set, referral cut, SOA in negative answers, \
          RRSIG/denial presence. Non-trivial = distinct (zone, qname, qtype) whose reference outcome is not a plain exact match (CNAME, cut, wildcard, ENT, NODATA, NXDOMAIN).",
@@ -866,36 +866,46 @@ fn main() {
     ctx.assume("zone contents reach the server through InMemoryZoneHandler::upsert_mut and the real secure_zone_mut; Ed25519 (ring) signs deterministically");
     ctx.assume("NS RRsets at wildcard owners are excluded from the grammar (RFC 4592 4.2: undefined)");
 
-    let sigs = signings(thorough);
-    let mut specs: Vec<ZoneSpec> = vec![];
+    // (zone, signings) jobs
+    let all4 = signings(true);
+    let quick3 = signings(false);
+    let two = vec![Signing::Unsigned, Signing::Nsec];
+    let mut jobs: Vec<(ZoneSpec, &Vec<Signing>)> = vec![];
+    let base = vzone::family("z.", &vzone::universe(2), 2, &vzone::ALL_KINDS);
     if thorough {
-        specs.extend(vzone::family("z.", &vzone::universe(2), 3, &vzone::ALL_KINDS));
-        // depth-3 owners: only those zones that have at least one depth-3 owner (the others are above)
-        let u3 = vzone::universe(3);
-        specs.extend(
-            vzone::family("z.", &u3, 2, &vzone::ALL_KINDS)
+        // (C) d=2, K<=2, all kinds: all four materialisations
+        jobs.extend(base.into_iter().map(|s| (s, &all4)));
+        // (A) d=2, K=3, reduced kinds (one CNAME target in, one deeper; no MX): unsigned + NSEC
+        let reduced = [Kind::A, Kind::Txt, Kind::ATxt, Kind::CnameA, Kind::CnameAA, Kind::Ns, Kind::NsGlue, Kind::NsDs];
+        jobs.extend(
+            vzone::family("z.", &vzone::universe(2), 3, &reduced).into_iter().filter(|s| s.owners.len() == 3).map(|s| (s, &two)),
+        );
+        // (B) d=3, K<=2, all kinds, at least one depth-3 owner: unsigned + NSEC + NSEC3
+        jobs.extend(
+            vzone::family("z.", &vzone::universe(3), 2, &vzone::ALL_KINDS)
                 .into_iter()
-                .filter(|s| s.owners.iter().any(|(o, _)| o.matches('.').count() == 4)),
+                .filter(|s| s.owners.iter().any(|(o, _)| o.matches('.').count() == 4))
+                .map(|s| (s, &quick3)),
         );
     } else {
-        specs.extend(vzone::family("z.", &vzone::universe(2), 2, &vzone::ALL_KINDS));
+        jobs.extend(base.into_iter().map(|s| (s, &quick3)));
     }
+    let chain_sigs = if thorough { &all4 } else { &quick3 };
     let chains = chain_family();
-    ctx.set("zones", json!(specs.len()));
+    ctx.set("zones", json!(jobs.len()));
     ctx.set("chain_zones", json!(chains.len()));
-    ctx.set("signings", json!(sigs.iter().map(|s| s.tag()).collect::<Vec<_>>()));
-    let _ = Kind::A;
+    ctx.set("signings", json!(chain_sigs.iter().map(|s| s.tag()).collect::<Vec<_>>()));
 
-    let n = specs.len() as u64;
+    let n = jobs.len() as u64;
     let stride = (n / 12).max(1);
     ctx.par_run_init(
         n,
         4,
         |_| vsim::rt(),
         |i, l, rt| {
-            let spec = &specs[i as usize];
+            let (spec, sigs) = &jobs[i as usize];
             let qnames = spec.query_names(3);
-            run_zone(spec, &qnames, &sigs, rt, l, i % stride == 0);
+            run_zone(spec, &qnames, sigs, rt, l, i % stride == 0);
         },
     );
     ctx.par_run_init(
@@ -904,7 +914,7 @@ fn main() {
         |_| vsim::rt(),
         |i, l, rt| {
             let (spec, q) = &chains[i as usize];
-            run_zone(spec, q, &sigs, rt, l, i == 26);
+            run_zone(spec, q, chain_sigs, rt, l, i == 26);
         },
     );
 
